@@ -80,4 +80,59 @@ example : IdxInv ⟨[], []⟩ 0 ∧ IdxInv (saveBlock ⟨[], []⟩ 1 [(0, 10)]) 
   have h0 : IdxInv ⟨[], []⟩ 0 := by intro e _; simp [chainEntries]
   exact ⟨h0, IdxInv_saveBlock _ 0 1 _ h0 (by simp) (by simp)⟩
 
+/-! ### towards the end-to-end statement -/
+
+/-- a linear history on the executable store model: block `i` (1-based) is committed through `Store.Set` at height
+`i` on top of the previous root (the store's own trigger prunes inside `setKV`). -/
+def linRun (H : Bytes → Bytes) : PState → Bytes → Nat → List (List (Bytes × Bytes)) → PState × List (Nat × Bytes)
+  | s, _, _, [] => (s, [])
+  | s, parent, h, b :: rest =>
+    match setKV H s parent h b with
+    | (.ok root, s') => let r := linRun H s' root (h + 1) rest; (r.1, (h, root) :: r.2)
+    | (_, s') => (s', [])
+
+/-- the end-to-end statement for linear histories, on the byte-level model that the driver runs: after any number of
+blocks (pruning triggered by the store itself), every key of the tip state and of every state within `ph` below the
+tip reads the value of its most recent write — or the hash function has a collision.  NOT proved; what is proved is
+the composition `retained_state_survives_pruning_partial` below plus its ingredients, and the byte-level model is
+tied to the code by the differential run (digest of the whole database after every pruning run). -/
+def PruneSafeFull : Prop :=
+  ∀ (H : Bytes → Bytes), (∀ x, (H x).length = 32) → ∀ (ph : Nat) (blocks : List (List (Bytes × Bytes))),
+    ∀ hr ∈ (linRun H (PState.new ph) [] 1 blocks).2, blocks.length < hr.1 + ph →
+      ∀ k, get (linRun H (PState.new ph) [] 1 blocks).1 hr.2 [k] = .ok [C01.lastWrite ((blocks.take hr.1).flatten) k] ∨
+        C03.Collision H
+
+/-- **retained_state_survives_pruning_partial** — one pruning run against one retained state, composed from
+`prune_deletes_only_dead`, `pruned_parents_dead` and the uniqueness of a key's leaf in a search tree.
+Added hypotheses (the missing lemmas towards `PruneSafeFull`): `hidx` — the leaf the state holds for `K` is the newest
+indexed version not above its height (the byte-level counterpart of `IdxInv`, whose preservation is proved on the
+abstract index only: `IdxInv_preserved`); `hpar`/`hleaf` — `PruneData` lists keys of nodes that have the leaf version
+below them; `U`/`hdist`/`hinj` — among the nodes of the store (`U`) keys identify nodes (content addressing with the height prefix; not derived from
+collision-freeness).  Conclusion: no node of the retained state is among the deleted records, for any key `K`. -/
+theorem retained_state_survives_pruning_partial (T : Node) (hst : ST T) (cur ph H : Nat) (hH : cur < H + ph)
+    (K : Bytes) (vs : List HashData) (hdesc : Desc vs) (par : HashData → List Bytes)
+    (hidx : ∀ ℓ, leafNode T K = some ℓ → ∃ v, currentAt vs H = some v ∧ ℓ.info.hk = some v.hash)
+    (U : Node → Prop) (hU : ∀ x ∈ subnodes T, U x)
+    (hpar : ∀ v ∈ vs, ∀ p ∈ par v, ∃ P val m, U P ∧ P.info.hk = some p ∧ (Node.leaf K val m).info.hk = some v.hash ∧
+        IsSub (.leaf K val m) P)
+    (hleaf : ∀ v ∈ vs, ∃ val m, U (.leaf K val m) ∧ (Node.leaf K val m).info.hk = some v.hash)
+    (hdist : ∀ a ∈ vs, ∀ b ∈ vs, a.hash = b.hash → a = b)
+    (hinj : ∀ (x y : Node) (h : Bytes), U x → U y → x.info.hk = some h → y.info.hk = some h → x = y) :
+    ∀ x ∈ subnodes T, ∀ d ∈ deletedFor cur ph vs par, x.info.hk ≠ some d :=
+  retained_nodes_survive T hst cur ph H hH K vs hdesc par hidx U hU hpar hleaf hdist hinj
+
+/-- non-vacuity of the hypotheses of `retained_state_survives_pruning_partial`: a one-leaf state whose leaf is the only
+indexed version of its key. -/
+example : ∃ (T : Node) (vs : List HashData) (U : Node → Prop),
+    ST T ∧ Desc vs ∧ (∀ x ∈ subnodes T, U x) ∧
+    (∀ ℓ, leafNode T [1] = some ℓ → ∃ v, currentAt vs 5 = some v ∧ ℓ.info.hk = some v.hash) ∧
+    (∀ v ∈ vs, ∃ val m, U (.leaf [1] val m) ∧ (Node.leaf [1] val m).info.hk = some v.hash) ∧
+    (∀ (x y : Node) (h : Bytes), U x → U y → x.info.hk = some h → y.info.hk = some h → x = y) := by
+  refine ⟨.leaf [1] [2] ⟨some [9], true⟩, [⟨3, [9]⟩], fun x => x = .leaf [1] [2] ⟨some [9], true⟩,
+    trivial, by simp [Desc], ?_, ?_, ?_, ?_⟩
+  · intro x hx; simpa [subnodes] using hx
+  · intro ℓ h; simp [leafNode, cmpB] at h; subst h; exact ⟨⟨3, [9]⟩, by decide, rfl⟩
+  · intro v hv; simp at hv; subst hv; exact ⟨[2], ⟨some [9], true⟩, rfl, rfl⟩
+  · intro x y h hx hy _ _; rw [hx, hy]
+
 end C05
